@@ -614,15 +614,16 @@ void Monitor::onRx(const DevEv& d) {
   // symbol emptied ebusd's receive buffer, i.e. ebusd passed through its send step in between)
   bool hadChance = prevRxLastOfChunk;
   prevRxLastOfChunk = d.lastOfChunk;
-  if (echoPending < 0 && own && !cands.empty() && cands[0].nextTx() >= 0 && cands[0].st != MasterRef::SEND) {
+  // (after the second bad response the choice between NAK and SYN is free, staying silent is not: the exchange ends with a SYN)
+  if (echoPending < 0 && own && !cands.empty() && (cands[0].nextTx() >= 0 || cands[0].nextTx() == -2) && cands[0].st != MasterRef::SEND) {
     // ebusd was due to transmit (response acknowledge / final SYN) but another symbol arrived first: somebody else is
     // on the bus, the exchange is broken. It is a violation only if ebusd had the chance to transmit before.
     int n = cands[0].nextTx();
     if (hadChance) {
       char buf[160];
-      snprintf(buf, sizeof(buf), "reference expects ebusd to write %02x (%s) but the next symbol %02x was read first", n,
-               cands[0].st == MasterRef::SEND_SYN ? "final SYN" : "response acknowledge", b);
-      violate("C02", "missing-byte", cands[0].st == MasterRef::SEND_SYN ? "final-SYN" : "response-ack", d, buf);
+      snprintf(buf, sizeof(buf), "reference expects ebusd to write %02x (%s) but the next symbol %02x was read first", n == -2 ? ref::SYN : n,
+               cands[0].st == MasterRef::SEND_SYN ? "final SYN" : n == -2 ? "NAK or SYN after the second bad response" : "response acknowledge", b);
+      violate("C02", "missing-byte", cands[0].st == MasterRef::SEND_SYN ? "final-SYN" : n == -2 ? "exchange-end-after-second-bad-response" : "response-ack", d, buf);
     } else {
       res->counters["c02.foreign_symbol_instead_of_own_turn"]++;
     }
